@@ -122,6 +122,11 @@ def replay_det(ctx, metrics, c, n):
         v = float(call(metrics.nse, a * obs + b, a * sim + b))
         if not isnanr(e["nse"]) and not close(v, q(e["nse"])):
             ctx.violation("nse:affine-invariance", "nse(a*o+b, a*s+b)=%r expected %s" % (v, e["nse"]), dict(case, a=a, b=b))
+        # ... and under a common scaling to very small / very large magnitudes (sums of squares of order 2^-80 / 2^+80)
+        a2 = [2.0 ** -40, 2.0 ** 40, 2.0 ** -25][n % 3]
+        v = float(call(metrics.nse, a2 * obs, a2 * sim))
+        if not isnanr(e["nse"]) and not close(v, q(e["nse"])):
+            ctx.violation("nse:scale-invariance", "nse(a*o, a*s)=%r expected %s" % (v, e["nse"]), dict(case, a=a2))
         k = [4.0, 0.25][n % 2]
         v = float(call(metrics.bias, k * obs, k * sim))
         if not close(v, q(e["bias_std"])):
@@ -296,6 +301,21 @@ def code_to_spec(ctx, metrics, ncases):
             kw2 = {"stat": ["median", "mean"][(t // 2) % 2], "type": ["Pearson", "Spearman"][(t // 4) % 2]}
             a = call(metrics.corr, obs, ens, trans=T, **kw2)
             b = call(metrics.corr, T.forward(obs), T.forward(ens), trans=ident, **kw2)
+            # the definition itself, outside the library: correlation of the transformed observations with the mean / median
+            # of the transformed members that are present (a forecast with some members missing still counts)
+            with warnings.catch_warnings():
+                warnings.simplefilter("ignore")
+                te = np.asarray(T.forward(ens), dtype=float)
+                ok = np.any(~np.isnan(te), axis=1)
+                ts = (np.nanmean if kw2["stat"] == "mean" else np.nanmedian)(te[ok], axis=1)
+                to = np.asarray(T.forward(obs), dtype=float)[ok]
+            if kw2["type"] == "Spearman":
+                from scipy.stats import rankdata
+                to, ts = rankdata(to), rankdata(ts)
+            c = float(np.corrcoef(to, ts)[0, 1])
+            if np.isfinite(a) and np.isfinite(c) and abs(a) <= 1000:
+                recs.append({"kind": "rel", "score": "corr-ensemble-definition", "trans": name,
+                             "a": int(round(a * 1e6)), "b": int(round(c * 1e6))})
         elif which == "corr":
             a = call(metrics.corr, obs, sim[:, None], trans=T)
             b = call(metrics.corr, T.forward(obs), T.forward(sim)[:, None], trans=ident)
